@@ -41,7 +41,7 @@ func (ag *attribGroup) decode(dec decoder.Decoder) error {
 		case valURI:
 			v = &valStr{tag: vtag}
 		case valRangeOfInt:
-			v = &valInt{tag: vtag}
+			v = &valRangeInt{tag: vtag}
 		case naturelLang:
 			v = &valStr{tag: vtag}
 		case mimeMediaType:
